@@ -5,18 +5,23 @@ package server
 // form) triples the generator knows; the real parseAllowIps / NewNamespace path builds the
 // namespace's list from the rendered texts; Namespace.IsClientIPAllowed is asked about
 // clients placed at the first/last/just-below/just-above/inside/far positions of every
-// block, each IPv4 client in its three presentations (4-byte, dotted text, ::ffff: text).
+// block, each IPv4 client in its three presentations (4-byte, dotted text, ::ffff: text), and
+// again through the real Session.IsAllowConnect over a fake net.Conn whose RemoteAddr is a
+// *net.TCPAddr (IPv4, IPv4-mapped, IPv6, no IP; ports 1/3306/65535).
 // Oracle: an independent prefix comparison on 128-bit values (IPv4 normalised to the
 // ::ffff:0:0/96 range), plus presentation invariance for IPv4 clients.
 
 import (
 	"fmt"
+	"io"
 	"net"
 	"sort"
 	"strings"
 	"testing"
+	"time"
 
 	"github.com/XiaoMi/Gaea/models"
+	"github.com/XiaoMi/Gaea/mysql"
 	kit "github.com/XiaoMi/Gaea/verifkit"
 )
 
@@ -348,6 +353,56 @@ func c35Build(entries []c35Entry, real bool) (*Namespace, func(), error) {
 	return &Namespace{allowips: ips}, func() {}, nil
 }
 
+// ---- the session's entry point: a real Session over a fake net.Conn whose RemoteAddr is a
+// *net.TCPAddr chosen by the monitor; IsAllowConnect does its own host/port splitting.
+
+type c35FakeConn struct{ addr net.Addr }
+
+func (c *c35FakeConn) Read(b []byte) (int, error)         { return 0, io.EOF }
+func (c *c35FakeConn) Write(b []byte) (int, error)        { return len(b), nil }
+func (c *c35FakeConn) Close() error                       { return nil }
+func (c *c35FakeConn) LocalAddr() net.Addr                { return &net.TCPAddr{IP: net.IPv4(127, 0, 0, 1), Port: 13306} }
+func (c *c35FakeConn) RemoteAddr() net.Addr               { return c.addr }
+func (c *c35FakeConn) SetDeadline(t time.Time) error      { return nil }
+func (c *c35FakeConn) SetReadDeadline(t time.Time) error  { return nil }
+func (c *c35FakeConn) SetWriteDeadline(t time.Time) error { return nil }
+
+type c35SessionRig struct {
+	conn *c35FakeConn
+	nm   *NamespaceManager
+	sess *Session
+}
+
+func c35NewSessionRig() *c35SessionRig {
+	m := NewManager()
+	nm := NewNamespaceManager()
+	cur, _, _ := m.switchIndex.Get()
+	m.namespaces[cur] = nm
+	conn := &c35FakeConn{addr: &net.TCPAddr{}}
+	sess := &Session{c: NewClientConn(mysql.NewConn(conn), m), manager: m, namespace: "c35"}
+	sess.closed.Store(false)
+	return &c35SessionRig{conn: conn, nm: nm, sess: sess}
+}
+
+var c35Rig *c35SessionRig
+
+// c35SessionAddrs: the TCP peer addresses under which the client can reach the listener.
+func c35SessionAddrs(cl c35Client) (names []string, addrs []*net.TCPAddr) {
+	port := []int{1, 3306, 65535}[int(cl.Lo%3)]
+	if cl.Nil {
+		return []string{"session/no-ip"}, []*net.TCPAddr{{Port: port}}
+	}
+	ip16 := make(net.IP, 16)
+	for i := 0; i < 8; i++ {
+		ip16[i] = byte(cl.Hi >> uint(56-8*i))
+		ip16[8+i] = byte(cl.Lo >> uint(56-8*i))
+	}
+	if c35IsV4(cl.Hi, cl.Lo) {
+		return []string{"session/tcp4", "session/tcp4-mapped"}, []*net.TCPAddr{{IP: net.IP{ip16[12], ip16[13], ip16[14], ip16[15]}, Port: port}, {IP: ip16, Port: port}}
+	}
+	return []string{"session/tcp6"}, []*net.TCPAddr{{IP: ip16, Port: port}}
+}
+
 // c35Check returns "" or the failed clause for one (list, client) pair.
 func c35Check(ns *Namespace, entries []c35Entry, cl c35Client) (clause, detail string, results []bool, names []string) {
 	names, ips, perr := c35Presentations(cl)
@@ -363,6 +418,23 @@ func c35Check(ns *Namespace, entries []c35Entry, cl c35Client) (clause, detail s
 		}
 		if want == 0 && got {
 			return "unlisted-client-admitted", names[i], results, names
+		}
+	}
+	// the same question through Session.IsAllowConnect
+	if c35Rig != nil {
+		c35Rig.nm.namespaces["c35"] = ns
+		sn, sa := c35SessionAddrs(cl)
+		for i, a := range sa {
+			c35Rig.conn.addr = a
+			got := c35Rig.sess.IsAllowConnect()
+			results = append(results, got)
+			names = append(names, sn[i])
+			if want == 1 && !got {
+				return "listed-client-refused", sn[i], results, names
+			}
+			if want == 0 && got {
+				return "unlisted-client-admitted", sn[i], results, names
+			}
 		}
 	}
 	for i := 1; i < len(results); i++ {
@@ -408,10 +480,12 @@ func c35Sig(c c35Case, clause, detail string) string {
 }
 
 func TestVerif_C35(t *testing.T) {
-	rec := kit.Start("C35", "exploration", "allow-lists of 0-4 entries (IPv4/IPv6/IPv4-mapped addresses and blocks, every prefix length, blanks) rendered from numeric triples and parsed by the real parseAllowIps/NewNamespace; clients at self/first/last/below/above/inside/sibling/compat/far positions of every block, IPv4 clients in 3 presentations; non-trivial = distinct (entry form, prefix length, position, client family, outcome)")
+	rec := kit.Start("C35", "exploration", "allow-lists of 0-4 entries (IPv4/IPv6/IPv4-mapped addresses and blocks, every prefix length, blanks) rendered from numeric triples and parsed by the real parseAllowIps/NewNamespace; clients at self/first/last/below/above/inside/sibling/compat/far positions of every block, IPv4 clients in 3 presentations, and every client again through Session.IsAllowConnect with a *net.TCPAddr peer; non-trivial = distinct (entry form, prefix length, position, client family, outcome)")
 	rec.Assume("blank entries are treated as absent (a list of blanks is an empty list)")
 	rec.Assume("not judged: whether an IPv4 client lies in an IPv6-syntax block shorter than /96 that covers ::ffff:0:0/96 (e.g. ::/0); only presentation invariance is demanded there")
 	defer rec.Finish(t)
+	lxQuietLogs()
+	c35Rig = c35NewSessionRig()
 
 	runCase := func(c c35Case) (string, string) {
 		ns, done, err := c35Build(c.Entries, c.Real)
